@@ -275,7 +275,8 @@ Fixpoint decisions (c : config) (n : nat) (st : list Z) : list decision * list Z
 (* ---- script interface ----
    script = [flags; error_rate bits; latency_rate bits; min_latency; max_latency; seed;
              tail_ms; n; (gap_ms, ik, inner_val)*n] ++ oracle (the logged draw values)
-   trace  = [7; per request 15 ints; number of draws consumed; the draws consumed] *)
+   trace  = [7; per request 15 ints; number of draws consumed; the draws consumed;
+             n; per request the first 8 ints again: the second service of the same layer value] *)
 Definition pad3 (l : list Z) : list Z :=
   [nth 0 l (-1); nth 1 l (-1); nth 2 l (-1)].
 
@@ -309,4 +310,8 @@ Definition run_script (s : list Z) : list Z :=
   let cs := calls 0 0 qs in
   let (os, _) := run_polls c t_end (polls cs [] 0) oracle in
   let bits := flat_map (fun po => d_bits (o_dec (snd po))) os in
-  [7] ++ flat_map (enc_call os) cs ++ [Z.of_nat (length bits)] ++ bits.
+  [7] ++ flat_map (enc_call os) cs ++ [Z.of_nat (length bits)] ++ bits ++
+  (* a second service built from the SAME layer value (layer.layer() once more), driven like the
+     first one afterwards: the crate seeds one generator per service from the configuration, so it
+     makes the decisions of a fresh generator, i.e. the first service's (draw log, events, delay) *)
+  [Z.of_nat (length cs)] ++ flat_map (fun p => firstn 8 (enc_call os p)) cs.
